@@ -58,6 +58,40 @@ def face_array(func):
     return None, None
 
 
+def _maps_minus_one_to_zero(v, nm):
+    """v is an elementwise expression of the array `nm` that is 0 where nm == -1 and nm elsewhere (on {-1, 0, 1}):
+    decided by tabulating the recognised forms on the three values np.sign can take"""
+    def ev(e, x):
+        if isinstance(e, ast.Name) and e.id == nm:
+            return x
+        if isinstance(e, ast.Constant) and isinstance(e.value, (int, float)) and not isinstance(e.value, bool):
+            return e.value
+        if isinstance(e, ast.UnaryOp) and isinstance(e.op, ast.USub):
+            return -ev(e.operand, x)
+        if isinstance(e, ast.Compare) and len(e.ops) == 1:
+            import operator as op
+            fn = {ast.Eq: op.eq, ast.NotEq: op.ne, ast.Lt: op.lt, ast.LtE: op.le, ast.Gt: op.gt, ast.GtE: op.ge}.get(type(e.ops[0]))
+            if fn is None:
+                raise ValueError
+            return fn(ev(e.left, x), ev(e.comparators[0], x))
+        if isinstance(e, ast.Call) and not e.keywords:
+            name = U.call_name(e)
+            a = [ev(z, x) for z in e.args]
+            if name == 'np.where' and len(a) == 3:
+                return a[1] if a[0] else a[2]
+            if name in ('np.maximum', 'np.fmax', 'max') and len(a) == 2:
+                return max(a)
+            if name in ('np.minimum', 'np.fmin', 'min') and len(a) == 2:
+                return min(a)
+            if name == 'np.clip' and len(a) == 3:
+                return min(max(a[0], a[1]), a[2])
+        raise ValueError
+    try:
+        return all(ev(v, x) == max(x, 0) for x in (-1, 0, 1)) and any(isinstance(n, ast.Name) and n.id == nm for n in ast.walk(v))
+    except (ValueError, TypeError):
+        return False
+
+
 def positive_mask_var(func, flux):
     """name s such that s is the positive-part indicator of the growth array"""
     for st in ast.walk(func):
@@ -75,6 +109,11 @@ def positive_mask_var(func, flux):
                                 if (isinstance(c.ops[0], ast.Eq) and U.is_const(c.comparators[0], -1)) or \
                                    (isinstance(c.ops[0], ast.Lt) and U.is_const(c.comparators[0], 0)):
                                     return nm, 'sign'
+                # or a rebinding through an elementwise map that sends -1 to 0 and keeps 0 and 1
+                for st2 in ast.walk(func):
+                    if isinstance(st2, ast.Assign) and len(st2.targets) == 1 and isinstance(st2.targets[0], ast.Name) and st2.targets[0].id == nm and st2 is not st \
+                            and _maps_minus_one_to_zero(st2.value, nm):
+                        return nm, 'sign'
                 return nm, 'sign-unfixed'
             cmpv = v
             if isinstance(v, ast.Call) and isinstance(v.func, ast.Attribute) and v.func.attr == 'astype':
